@@ -705,7 +705,7 @@ func (d *hoDriver) mutatedProcess(h int64, round, proposer int, now time.Time, v
 	}
 	muts := []string{"reorder", "dupBlock", "dropBlock", "blockLater", "blockLaterValid", "blockChild", "blockChild", "blockPairLater", "blockPairFirst", "wrongParent", "wrongNumber", "wrongBeacon", "wrongProposer", "wrongRecipient",
 		"recipientPadded", "recipientShort", "sysAdded", "sysRemoved", "sysAltered", "countByte", "reqGarbage", "gas0", "gas2", "futureTime", "engineInvalid", "engineSyncing", "tooMany", "empty",
-		"garbageRest", "timeoutWrong", "badSig", "blob", "excessBlob", "gasFields", "paddedParent", "paddedBeacon", "lowGas", "lowGas"}
+		"garbageRest", "timeoutWrong", "badSig", "blob", "excessBlob", "gasFields", "paddedParent", "paddedBeacon", "lowGas", "lowGas", "reqTypeOnly"}
 	mut := muts[r.Intn(len(muts))]
 	// when system transactions of BOTH modules are due, often cut the list inside / right after the bridge's part
 	nb, nl := 0, 0
@@ -892,6 +892,13 @@ func (d *hoDriver) mutatedProcess(h int64, round, proposer int, now time.Time, v
 		p.ExtraData[0] += byte(1 + r.Intn(3))
 		rehash(p)
 		txs = append([][]byte{blockTx(p, proposer, sim.SignOpts{})}, rest...)
+	case "reqTypeOnly":
+		// one more request entry that consists of a type byte only ("no request of that type"): decodable, harmless - and part of the
+		// payload: what the engine is told must contain it (the block hash covers the request list)
+		p := clone()
+		p.Requests = append(p.Requests, []byte{[]byte{goattypes.WithdrawalRequestType, goattypes.ReplaceByFeeRequestType, goattypes.Cancel1RequestType}[r.Intn(3)]})
+		rehash(p)
+		txs = append([][]byte{blockTx(p, proposer, sim.SignOpts{})}, rest...)
 	case "reqGarbage":
 		p := clone()
 		p.Requests = append(p.Requests, []byte{0x63, 1, 2, 3})
@@ -1023,7 +1030,7 @@ func (d *hoDriver) mutatedProcess(h int64, round, proposer int, now time.Time, v
 	byzFinal := map[string]bool{"wrongParent": true, "wrongNumber": true, "wrongBeacon": true, "wrongProposer": true, "wrongRecipient": true,
 		"recipientPadded": true, "recipientShort": true, "sysAdded": true, "sysRemoved": true, "sysAltered": true, "countByte": true,
 		"reqGarbage": true, "gas0": true, "gas2": true, "futureTime": true, "blob": true, "timeoutWrong": true,
-		"blockChild": true, "blockLaterValid": true, "blockPairLater": true, "excessBlob": true, "gasFields": true, "paddedParent": true, "paddedBeacon": true, "lowGas": true}
+		"blockChild": true, "blockLaterValid": true, "blockPairLater": true, "excessBlob": true, "gasFields": true, "paddedParent": true, "paddedBeacon": true, "lowGas": true, "reqTypeOnly": true}
 	if byzFinal[mut] && h > c.InitialHeight && (skew || mut == "lowGas" || r.Intn(2) == 0) {
 		prevApp := c.App.LastCommitID().Hash
 		txsDigest := sha256.New()
